@@ -28,7 +28,14 @@ const (
 	JarDeps = "/opt/veriftools/tla/CommunityModules-deps.jar"
 )
 
-var SpecDir = "/verif/spec"
+var SpecDir = home() + "/spec"
+
+func home() string {
+	if h := os.Getenv("BKLV_HOME"); h != "" {
+		return h
+	}
+	return "/verif"
+}
 
 // LongRun selects the JVM flags for long model-checking runs.
 var LongRun = false
